@@ -88,9 +88,10 @@ def h_sound_types(which: int, c0: bool, c1: bool, c2: bool, c3: bool, c4: bool, 
     k = _pick(which)
     if VERDICT[k][0] != "accepted":
         return True
-    r = e8.run_types(FNS[k], [c0, c1, c2, c3, c4, c5, c6, c7], [d0, d1, d2, d3, d4, d5, d6, d7])
+    # soundness explores all pairs of vectors of 6 decisions (4096 pairs at most); the witness conditions below may use 8 + 8
+    r = e8.run_types(FNS[k], [c0, c1, c2, c3, c4, c5], [d0, d1, d2, d3, d4, d5])
     if r.startswith("conflict"):
-        LAST_DETAIL = f"ACCEPTED by the real checker, but {r} (decisions {[c0, c1, c2, c3, c4, c5, c6, c7]} / {[d0, d1, d2, d3, d4, d5, d6, d7]}):\n{SRCS[k]}"
+        LAST_DETAIL = f"ACCEPTED by the real checker, but {r} (decisions {[c0, c1, c2, c3, c4, c5]} / {[d0, d1, d2, d3, d4, d5]}):\n{SRCS[k]}"
         return False
     return True
 
